@@ -284,8 +284,22 @@ skipSpace:
 		// Note that the buffer may have been refilled since we read r,
 		// such as when peeking at the byte which follows a backslash,
 		// in which case r's bytes are gone and we cannot match on them.
-		w := uint(utf8.RuneLen(r))
-		if p.bsp >= w && bytes.HasPrefix(p.bs[p.bsp-w:], p.stopAt) {
+		var enc [utf8.UTFMax]byte
+		k := 0
+		if r >= 0 && r <= utf8.MaxRune {
+			k = utf8.EncodeRune(enc[:], r)
+		}
+		stop := false
+		if k > 0 && len(p.stopAt) >= k && bytes.Equal(p.stopAt[:k], enc[:k]) {
+			need := len(p.stopAt) - k
+			for len(p.bs)-int(p.bsp) < need && int(p.bsp) <= len(p.bs) {
+				if p.fill() == 0 {
+					break
+				}
+			}
+			stop = int(p.bsp) <= len(p.bs) && bytes.HasPrefix(p.bs[p.bsp:], p.stopAt[k:])
+		}
+		if stop {
 			p.r = runeEOF
 			p.w = 1
 			p.tok = _EOF
